@@ -56,6 +56,10 @@ CHECKS = {
             "runtime monitoring of schedules: differential runs across io-cache depths and seeded schedule perturbation (source hooks), ThreadSanitizer/ASan on io-ring and hostile scan workloads, offline checker of the io.c hook event trace (slot ownership, exactly-once, order), watchdog + SIGINT for termination",
             "From one restored image sync/scrub are run single-threaded and with 3..128 ring slots under seeded yields/sleeps injected between critical sections; parity bytes, decoded state and error sets must equal the single-thread reference. Every run's hook trace (one atomic sequence counter) is checked for overlapping slot ownership, positions processed exactly once and in order, and worker silence after join. TSan (real SIMD and portable-C builds) and ASan watch the same workloads plus a scan workload built to hit the copy-detection window. Evidence reports events, hand-overs and distinct interleavings seen.",
             "Interleavings are sampled, not enumerated: the exhaustive exploration of a ring-protocol model named in the property's observe_at is model checking and is not done (DESIGN.md section 6). Termination means 'ended within the watchdog on every run'. State comparison ignores free-space counters and inode numbers."),
+    "C14": ("exploration",
+            "runtime monitor: each interlock trigger is produced on a restored image, sync is run without and with the override, and the bytes/sizes of every content and parity file plus the directory listings are compared before/after; lock exclusion is tested by holding a first command inside its run with a shim delay while a second command is started",
+            "Triggers: all files of a disk missing / rewritten, a non-empty file emptied, a parity file truncated below the required size (aligned and unaligned cuts, any split), blocksize / hashsize changed in the configuration, a recorded disk dropped from the configuration, lock held by another command; alone and mixed with ordinary pending changes, on every disk / level. Refusal must leave every content and parity byte untouched; with the override (or restored configuration, or after the other command ended) the same sync must proceed.",
+            "Sampled arrays; 'parity smaller' is produced by truncation, not deletion. Lock pairs whose delay rule did not fire are not counted."),
     "C16": ("exploration",
             "differential monitoring against recorded observations of the reference version: vendored arrays written by the pristine pinned tree are checked and repaired by the current tree; digests, CRCs and parity of stored vectors are recomputed through harnesses linked with the current objects and compared with stored values and frozen reference sources",
             "12 vendored reference arrays (both hash kinds, hash sizes 16/8/4/2, 1..6 parities and z, split layouts, formats 2 and 3, migration in progress, fragmented allocation): check must be clean and fix must reproduce the stored bytes/mtimes/links after removing device subsets (all subsets of size <= N in thorough). 8 seeds x lengths 0..1100 x 2 hash kinds, CRC-32C table and SSE4.2 variants for lengths 0..1100, 180 parity vectors over nd 1..251, np 1..6, both modes.",
